@@ -1,6 +1,18 @@
 from pyvc.runner import register_modules
 
-register_modules("C12", "bounded.C12_api")
-LEVEL = "exploration"
-ASSUMPTIONS = ["oracle: DESIGN.md Appendix A.4 (A-ORACLE)", "bounded scope: 2 RPTIDs, 2 CEIDs, sequences of 2..3 requests from 5 start configurations + random sequences up to 8",
-               "S2F37 with a mixed known/unknown CEID list is not judged"]
+register_modules("C12", "contracts.C12_reports", "bounded.C12_api")
+LEVEL = "other"
+EXPLANATION = ("(VC, bounded shapes - table sizes and request lengths are case splits, every id is symbolic so every coincidence of requested and existing "
+               "ids is covered) the real handlers of CollectionEventCapability: _on_s02f33 (define / delete-one / delete-all: DRACK 0 exactly when acceptable, "
+               "refused => nothing changes, accepted => exactly the E5 effect incl. removal from every link and disappearance of emptied links), "
+               "_on_s02f35 (LRACK, transactionality, append in request order, new links disabled), _set_ce_state (S2F37), _build_collection_event (no failing "
+               "lookup under the consistency invariant, reports in link order with current values in variable order), _on_s06f15 (always S6F16); "
+               "the invariant 'every linked report is defined' is a postcondition of the two mutating handlers under itself as precondition, i.e. an "
+               "inductive invariant over any request sequence within the shapes.  (BND) all request sequences of length 2 after 5 prefixes, life cycles, "
+               "random sequences on a real handler through real messages against a reference model: covers larger tables, histories, the trigger path.")
+ASSUMPTIONS = [
+    "shapes: 0..2 defined reports, 0..2 links of 1..2 reports, requests of 0..2 entries with 0..2 ids; entries of one request name distinct reports / events",
+    "call-outs assumed: decode of the request delivers its records (C03), item.get(), value getters of status variables / data values (C13), construction of the reply",
+    "A-KEY: decoded data items stand for their values as dictionary keys, in list membership and in comparisons",
+    "bounded pass: reference model in bounded/C12_api.py (from the property statement and E5), scope as stated in evidence.bounded",
+]
